@@ -42,8 +42,13 @@ func vC10Listings(b *vBed) (sig, msg string) {
 			return "measurement-with-points-not-listed", fmt.Sprintf("measurement %q has model points but is not listed (listed %v)", m, vKeys(gotM))
 		}
 	}
+	lingerM := map[string]bool{}
+	for s := range b.lingerOK {
+		n, _ := models.ParseKey([]byte(s))
+		lingerM[n] = true
+	}
 	for m := range gotM {
-		if !wantM[m] {
+		if !wantM[m] && !lingerM[m] {
 			return "emptied-measurement-still-listed", fmt.Sprintf("measurement %q has no points left but is still listed", m)
 		}
 	}
@@ -86,7 +91,7 @@ func vC10Listings(b *vBed) (sig, msg string) {
 				}
 			}
 			for s := range perShard {
-				if !want[s] {
+				if !want[s] && !b.lingerOK[s] {
 					return "emptied-series-still-listed", fmt.Sprintf("shard %d: series %q has no points left but is still listed", id, s)
 				}
 			}
@@ -98,7 +103,7 @@ func vC10Listings(b *vBed) (sig, msg string) {
 		}
 	}
 	for s := range gotSeries {
-		if !wantSeries[s] {
+		if !wantSeries[s] && !b.lingerOK[s] {
 			return "emptied-series-still-listed", fmt.Sprintf("series %q has no points left but is still listed", s)
 		}
 	}
@@ -125,6 +130,11 @@ func vC10Listings(b *vBed) (sig, msg string) {
 				return "tagvalue-with-points-not-listed", fmt.Sprintf("tag value %q not listed (listed %v)", k, vKeys(got))
 			}
 		}
+		for s := range b.lingerOK {
+			name, tags := models.ParseKey([]byte(s))
+			want[name+" host="+tags.GetString("host")] = true
+			got[name+" host="+tags.GetString("host")] = true
+		}
 		for k := range got {
 			if !want[k] {
 				return "emptied-tagvalue-still-listed", fmt.Sprintf("tag value %q still listed although no series with points carries it", k)
@@ -133,7 +143,6 @@ func vC10Listings(b *vBed) (sig, msg string) {
 	}
 	return "", ""
 }
-
 
 func vC10Check(rt *rapid.T, b *vBed, where string) {
 	got, err := b.readAll()
@@ -172,6 +181,7 @@ func TestVerifC10Deletes(t *testing.T) {
 		}
 		defer b.close()
 		defer verifhook.Set(nil)
+		b.onExclude = stats.Exclude
 		cls := map[string]bool{"index:" + idx: true}
 		var canon strings.Builder
 		var sample []string
